@@ -146,6 +146,14 @@ func (g *Generator) AdjustEnv(env []*nri.KeyValue) {
 
 	for _, e := range env {
 		key, _ := nri.IsMarkedForRemoval(e.Key)
+		if m, ok := mod[key]; ok {
+			// a set wins over a removal of the same variable whatever the list order
+			if _, marked := m.IsMarkedForRemoval(); !marked {
+				if _, marked := e.IsMarkedForRemoval(); marked {
+					continue
+				}
+			}
+		}
 		mod[key] = e
 	}
 
